@@ -222,10 +222,20 @@ func runStructCase(c sCaseT) sEventT {
 	if ev.Obs.Build == "ok" {
 		try("unmarshal", func() { // what a request does with the type: a new instance, its id set from a JSON string
 			sc := &jsonapi.Schema{}
-			must(sc.AddType(typ))
+			if err := sc.AddType(typ); err != nil {
+				panic(fmt.Sprint("the built type cannot be added to a schema: ", err))
+			}
 			r, err := jsonapi.UnmarshalResource([]byte(`{"type":"`+typ.Name+`","id":"u1"}`), sc)
 			if err != nil || r.Get("id") != "u1" {
 				panic(fmt.Sprint("not read: ", err))
+			}
+		})
+	}
+	if c.Shape.ID == "named" {
+		try("setid-own-type", func() { // a value of the ID field's own type
+			w.Set("id", Label("i0"))
+			if w.Get("id") != "i0" {
+				panic("id not read back")
 			}
 		})
 	}
